@@ -329,6 +329,20 @@ where
                                 msg_epoch,
                             );
 
+                            // The rollback restored the group record as it was when the
+                            // snapshot was taken, including its cached last-message pointer,
+                            // and some messages have just been invalidated: recompute the
+                            // pointer from the stored messages.
+                            if self
+                                .refresh_last_message_pointer(&group.mls_group_id)
+                                .is_err()
+                            {
+                                tracing::warn!(
+                                    target: "mdk_core::messages::process_message",
+                                    "Failed to refresh last-message pointer after rollback"
+                                );
+                            }
+
                             // Find messages that failed to decrypt because we had the wrong
                             // commit's keys. Now that we've rolled back and will apply the
                             // correct commit, these can potentially be decrypted.
@@ -417,6 +431,36 @@ where
                 self.fail_unprocessable(event.id, &error, group)
             }
         }
+    }
+
+    /// Recomputes the group's cached last-message pointer from the stored messages: the first
+    /// message of the default display order that is not epoch-invalidated, or nothing.
+    pub(super) fn refresh_last_message_pointer(&self, group_id: &GroupId) -> Result<()> {
+        use mdk_storage_traits::groups::{DEFAULT_MESSAGE_LIMIT, Pagination};
+
+        let mut stored_group = self.get_group(group_id)?.ok_or(Error::GroupNotFound)?;
+
+        let mut first_valid: Option<message_types::Message> = None;
+        let mut offset = 0usize;
+        loop {
+            let page = self.get_messages(
+                group_id,
+                Some(Pagination::new(Some(DEFAULT_MESSAGE_LIMIT), Some(offset))),
+            )?;
+            let page_len = page.len();
+            first_valid = page
+                .into_iter()
+                .find(|m| m.state != message_types::MessageState::EpochInvalidated);
+            if first_valid.is_some() || page_len < DEFAULT_MESSAGE_LIMIT {
+                break;
+            }
+            offset += page_len;
+        }
+
+        stored_group.last_message_id = first_valid.as_ref().map(|m| m.id);
+        stored_group.last_message_at = first_valid.as_ref().map(|m| m.created_at);
+        stored_group.last_message_processed_at = first_valid.as_ref().map(|m| m.processed_at);
+        self.save_group_record(stored_group)
     }
 
     /// Extracts the MLS group ID from an event's h-tag
